@@ -167,6 +167,9 @@ def gen_case(r, big=False, nchunkings=3):
     for _ in range(nchunkings):
         chunkings.append({k: [rand_chunks(r, s) for s in shape] for k in ("coord", "data", "fdata")})
     case["chunkings"] = chunkings
+    case["variant"] = r.choice(["dask"] * 8 + ["xr", "int"])
+    if r.random() < 0.35:
+        case["history"] = [[r.choice(["count", "sum", "min", "max"]), r.randrange(nchunkings)] for _ in range(r.randint(2, 6))]
     return case
 
 
@@ -373,6 +376,13 @@ def judge(case, outs):
             if oo[q] != o[q]:
                 fails.append(("C07.chunking." + q, "%s differs between chunk layouts %s and %s" % (q, case["chunkings"][0], case["chunkings"][j])))
                 break
+    # ---- a history of calls on one object returns what separate fresh objects return
+    for step, hh in enumerate(o.get("history", [])):
+        ref = {"count": o["count"], "sum": o["sum"], "min": o["min"], "max": o["max"]}[hh["op"]]
+        if hh["out"] != ref:
+            fails.append(("C07.history." + hh["op"], "call %d (%s) of the history %s on one object returns %s, a fresh object returns %s"
+                          % (step, hh["op"], case["history"], hh["out"], ref)))
+            break
     seen, out = set(), []
     for k, wh in fails:
         if k not in seen:
@@ -429,6 +439,30 @@ def coq_stat_case(case, o):
         "; ".join(fl(u(l)) for l in o["frac"])))
 
 
+def coq_hist_case(case, o):
+    """(size, chunks0, calls, expected results) for chk_history"""
+    u = lambda l: [unhex(v) for v in l]
+    ar = case["area"]
+    pos, chunks0 = 0, []
+    for c in o["idx_chunks"]:
+        chunks0.append(zl(o["idxs"][pos:pos + c]))
+        pos += c
+    calls, exps = [], []
+    nl = lambda l: "[" + "; ".join("%d%%nat" % c for c in l) + "]"
+    for hh in o["history"]:
+        if hh["op"] == "count":
+            calls.append("CallCount")
+            exps.append("ResZ %s" % zl(hh["out"]))
+        elif hh["op"] == "sum":
+            calls.append("CallSum %s %s %s %s %s" % (nl(hh["lens"]), dl(u(case["data"])), to_dat(unhex(case["fill"])),
+                                                  "true" if case["skipna"] else "false", to_dat(unhex(case["ebv"]))))
+            exps.append("ResD %s" % dl(u(hh["out"])))
+        else:
+            calls.append("%s %s %s" % ("CallMin" if hh["op"] == "min" else "CallMax", nl(hh["lens"]), dl(u(case["fdata"]))))
+            exps.append("ResD %s" % dl(u(hh["out"])))
+    return "((%d), [%s], [%s], [%s])" % (ar["w"] * ar["h"], "; ".join(chunks0), "; ".join(calls), "; ".join(exps))
+
+
 STAT_NAMES = ["count", "sum", "average", "min", "max", "absmax", "fractions", "chunked_histogram"]
 
 
@@ -459,7 +493,7 @@ def run_impl(ctx, cases, kernels=None, shards=8):
     shards = max(1, min(shards, max(1, len(cases))))
     parts = [cases[i::shards] for i in range(shards)]
     payloads = [{"cases": [{k: c[k] for k in ("area", "mode", "xs", "ys", "shape", "data", "fdata", "fill", "skipna",
-                                                "ebv", "ffill", "cats", "chunkings")} for c in p]} for p in parts]
+                                                "ebv", "ffill", "cats", "chunkings", "variant", "history") if k in c} for c in p]} for p in parts]
     if kernels is not None:
         payloads[0]["kernels"] = [[hexf(a), hexf(b)] for a, b in kernels]
     with ThreadPoolExecutor(max_workers=shards) as ex:
@@ -478,11 +512,13 @@ def run(ctx):
                 "(exact in binary64) or general grids incl. flipped extents, 20% through real PROJ (laea, merc, stere, longlat, eqc); "
                 "points inside / exactly on cell borders and outer edges / one ulp beside them / outside / NaN, inf, 1e30, 2^63, -0.0; "
                 "integer-valued data with fill markers and NaN (sum/average only), fill_value, skipna, empty_bucket_value, category "
-                "sets; two (quick) or three (thorough) random dask chunk layouts (1-D and 2-D, chunk size 1, ragged) of coordinates and data per case. "
+                "sets; data handed over as dask float64 (80%), as xarray.DataArray (10%) or as int64 (10%); in a third of the cases a random "
+                "history of 2-6 eager get_count/get_sum/get_min/get_max calls on ONE object (re-chunked idxs, memoised counts) compared with "
+                "fresh-object results; two (quick) or three (thorough) random dask chunk layouts (1-D and 2-D, chunk size 1, ragged) of coordinates and data per case. "
                 "Non-trivial = at least one cell with two or more points and at least one point outside the area; "
                 "distinct = distinct (area, coordinates, data, configuration)")
     r = ctx.rng
-    ncases = ctx.n(240, 1500)
+    ncases = ctx.n(200, 1500)
     cases = [gen_lattice_case(r, w, h, ctx.n(2, 4), fx, fy, ctx.n(2, 3))
              for (w, h) in ctx.n([(2, 2)], [(2, 2), (3, 2), (1, 3)]) for fx in (False, True) for fy in (False, True)]
     pairs = [(49, 107), (98, 161), (103, 7)] + ctx.n([], [(161, 49), (13, 98), (107, 103), (1000, 4000)])
@@ -494,7 +530,7 @@ def run(ctx):
     outs, kobs = run_impl(ctx, cases, kernels, shards=ctx.n(8, 12))
     t_impl = time.time() - t0
 
-    idx_lines, stat_lines, stat_ids = [], [], []
+    idx_lines, stat_lines, stat_ids, hist_lines = [], [], [], []
     for ci, (case, oo) in enumerate(zip(cases, outs)):
         fails = judge(case, oo)
         good = [o for o in oo if "error" not in o]
@@ -502,7 +538,11 @@ def run(ctx):
         multi = o is not None and max(o["count"] + [0]) >= 2 and sum(o["count"]) < len(case["xs"])
         ctx.case((case["area"]["extent"], case["area"]["w"], case["area"]["h"], case["xs"], case["ys"], case["data"], case["fdata"],
                   case["fill"], case["skipna"], case["ebv"], case["cats"]), nontrivial=multi,
-                 sample={"bucket": {"area": case["area"], "n_points": len(case["xs"]), "fill": unhex(case["fill"]), "skipna": case["skipna"],
+                 sample={"bucket_" + case["aclass"].split("_")[0] + ("_proj" if case["mode"] == "proj" else ""): {
+                     "area_class": case["aclass"], "variant": case.get("variant"), "history": case.get("history"),
+                     "points": list(zip([unhex(v) for v in case["xs"][:6]], [unhex(v) for v in case["ys"][:6]], case["classes"][:6])),
+                     "data": [unhex(v) for v in case["data"][:6]], "idxs": o["idxs"][:6] if o else None,
+                     "area": case["area"], "n_points": len(case["xs"]), "fill": unhex(case["fill"]), "skipna": case["skipna"],
                                     "count": o["count"] if o else None, "sum": [unhex(v) for v in o["sum"]] if o else None,
                                     "chunkings": case["chunkings"][:2]}})
         ctx.count("area:" + case["aclass"])
@@ -512,6 +552,11 @@ def run(ctx):
         ctx.count("fill:" + ("nan" if case["fill"] == "nan" else "number"))
         ctx.count("skipna:%s" % case["skipna"])
         ctx.count("categories:" + ("derived" if case["cats"] is None else "given"))
+        ctx.count("data_variant:" + case.get("variant", "dask"))
+        ctx.count("empty_bucket_value:" + ("0" if unhex(case["ebv"]) == 0 else "nan" if case["ebv"] == "nan" else "number"))
+        for op, _ in case.get("history", []):
+            ctx.count("history_call:" + op)
+        ctx.count("object_history:" + ("yes" if case.get("history") else "no"))
         if o is not None:
             ctx.count("cells_empty", sum(1 for c in o["count"] if c == 0))
             ctx.count("cells_nonempty", sum(1 for c in o["count"] if c))
@@ -523,6 +568,8 @@ def run(ctx):
             idx_lines.append(coq_idx_case(case, o))
             stat_lines.append(coq_stat_case(case, o))
             stat_ids.append(ci)
+            if o.get("history"):
+                hist_lines.append(coq_hist_case(case, o))
         except ValueError as e:
             if not fails:
                 ctx.broken.append(("correspondence:statistics", "case %d: implementation output is not integer valued: %s" % (ci, e)))
@@ -535,6 +582,9 @@ def run(ctx):
                       % ";\n".join(idx_lines[s:s + per]), "idx", s))
         texts.append(("c07_stat_%03d" % (s // per), HDR + "Definition cases : list scase := [%s].\nEval vm_compute in (bad_stats cases).\n"
                       % ";\n".join(stat_lines[s:s + per]), "stat", s))
+    for s in range(0, len(hist_lines), 150):
+        texts.append(("c07_hist_%03d" % (s // 150), HDR + "Definition cases : list hcase := [%s].\nEval vm_compute in (bad chk_history cases).\n"
+                      % ";\n".join(hist_lines[s:s + 150]), "history", s))
     klines = []
     for (a, b), inv, am in zip(kernels, kobs["invalid"], kobs["absmax"]):
         try:
@@ -575,8 +625,8 @@ def run(ctx):
             import re
             bad = [int(x) for x in re.findall(r"-?\d+", re.sub(r"%[a-zA-Z]+", "", val))]
             if bad:
-                line = (idx_lines if kind == "idx" else klines)[off + bad[0]]
-                ctx.broken.append(("correspondence:" + ("indices" if kind == "idx" else "kernels"),
+                line = (idx_lines if kind == "idx" else hist_lines if kind == "history" else klines)[off + bad[0]]
+                ctx.broken.append(("correspondence:" + ("indices" if kind == "idx" else "history" if kind == "history" else "kernels"),
                                    "model and implementation differ on %d cases of shard %s, e.g. %s" % (len(bad), name, line[:300])))
     ctx.traces = len(stat_lines)
     ctx.notes += [
